@@ -31,7 +31,8 @@ Forms == <<
   [G("xsl:with-param[select=s]#k", "xsl:with-param", "k", <<>>, <<>>, FALSE, FALSE) EXCEPT !.attrs = <<<<"select", "s">>>>],
   [G("label#a[for=x]", "label", "a", <<>>, <<>>, FALSE, FALSE) EXCEPT !.attrs = <<<<"for", "x">>>>],          \* label + input: the label addon rewrites attribute lists
   [G("input[type=t]/", "input", "", <<>>, <<>>, TRUE, FALSE) EXCEPT !.attrs = <<<<"type", "t">>>>],
-  G("div{${1}${2:tail}}", "div", "", <<>>, <<"tail">>, FALSE, FALSE) >>                                         \* text made of two adjacent fields: children go to the first
+  G("div{${1}${2:tail}}", "div", "", <<>>, <<"tail">>, FALSE, FALSE),
+  G("p{a ${1} b\nc}", "p", "", <<>>, <<"a  b", "c">>, FALSE, FALSE) >>                                        \* a field, then a line break, in one text                                         \* text made of two adjacent fields: children go to the first
 FormKey(k) == "G" \o ToString(k)
 KeyIdx(key) == CHOOSE k \in 1..Len(Forms) : FormKey(k) = key
 GNext == \/ \E k \in FormIdx : Item(Forms[k].s, FormKey(k), Forms[k].sc)
